@@ -1228,3 +1228,43 @@ func lemmaSliceConcat(seq Sequence, c int) Sequence {
 //@   loop 1: invariant fresh(segments) && len(segments) == len(indices)
 //@   loop 1: invariant forall k in 0..i: segments[k][0] == indices[k] && segments[k][1] == indices[k] + len(sep)
 //@   loop 1: decreases len(indices) - i
+
+// Parsers of locations (C07): no panic whatever the input; pars primitives are external.
+//@ func parseBetween(state *pars.State, result *pars.Result) (err error)
+//@   prop C07
+//@   requires !isnil(state) && !isnil(result)
+//@ func parseRange(state *pars.State, result *pars.Result) (err error)
+//@   prop C07
+//@   requires !isnil(state) && !isnil(result)
+//@ func parseAmbiguous(state *pars.State, result *pars.Result) (err error)
+//@   prop C07
+//@   requires !isnil(state) && !isnil(result)
+//@ func parseJoin(state *pars.State, result *pars.Result) (err error)
+//@   prop C07
+//@   requires !isnil(state) && !isnil(result)
+//@ func parseOrder(state *pars.State, result *pars.Result) (err error)
+//@   prop C07
+//@   requires !isnil(state) && !isnil(result)
+// ParseLocation is pars.Any(...) over the parsers below: assumed to leave a Location on success.
+//@ func ParseLocation(state *pars.State, result *pars.Result) (err error)
+//@   trusted built by pars.Any from the location parsers: on success result.Value holds the Location set by one of them
+//@   requires !isnil(state) && !isnil(result)
+//@   ensures isnil(err) ==> is(result.Value, Location) && !isnil(result.Value)
+//@   assigns result
+
+//@ func multipleLocationParser(state *pars.State, result *pars.Result) (err error)
+//@   prop C07
+//@   requires !isnil(state) && !isnil(result)
+//@   ensures isnil(err) ==> is(result.Value, []Location) && len(result.Value.([]Location)) >= 1 && (forall k in 0..len(result.Value.([]Location)): !isnil(result.Value.([]Location)[k]))
+//@   loop 1: invariant fresh(locs) && len(locs) >= 1 && (forall k in 0..len(locs): !isnil(locs[k]))
+//@ func locationDelimiter(state *pars.State, result *pars.Result) (r bool)
+//@   prop C07
+//@   requires !isnil(state) && !isnil(result)
+//@ func AsMolecule(s string) (m Molecule, err error)
+//@   prop C07
+//@ func AsTopology(s string) (t Topology, err error)
+//@   prop C07
+//@ func toQualifier(s string) (f Filter, err error)
+//@   prop C07 C19
+//@ func Selector(sel string) (f Filter, err error)
+//@   prop C07 C19
